@@ -53,6 +53,7 @@ struct World {
 	std::vector<std::function<void(J &)>> result_hooks;
 	Models *models = nullptr;     // model peers (sessions / forward scenarios)
 	std::function<bool(const J &)> op_hook;   // scenario-specific ops
+	std::map<std::string, std::deque<uint16_t>> recent_ids;   // per real client: DNS ids of its latest queries (for spoofers that must not match)
 
 	virtual ~World() { for (auto m : owned) delete m; }
 	void build_common();          // hosts, server, clients from cfg
